@@ -1,4 +1,5 @@
 import Mdsort.Proofs.World
+import Mdsort.Proofs.WorldSingleEx
 
 /-!
 # C01 - no message is lost or duplicated when an I/O operation fails
@@ -28,5 +29,137 @@ theorem C01_exit_reports_error (env : PEnv) (orc : EvalOracles) (ok : Bool) (con
     let r := (runPlan plan (mainP env orc ok conf files input) w 0 []).1
     r.1 = exitStatus env r.2 :=
   Proofs.exit_status_table env orc ok conf files input w plan
+
+/-! ## at most one fault
+
+`Proofs.World.SingleFault plan`: at most one call index carries a fault (implied by
+`Plan.count plan n ≤ 1` for all `n`, and true of `singlePlan i f`).  `Proofs.StartAt` is `Start`
+plus: the source maildir's path is the join of its root and subdirectory, the ghost location and
+content of the message are those of its entry, the message's descriptor is an existing handle
+other than the source directory's.  Entries are compared through `World.lookup` (for the
+name-unique directory lists of `Start` this determines the lists up to order). -/
+
+/-- The restriction on plans, in the terms of `Plan.count`. -/
+theorem C01_single_fault_of_count (plan : Plan) (h : ∀ n, Plan.count plan n ≤ 1) : Proofs.World.SingleFault plan :=
+  Proofs.World.singleFault_of_count plan h
+
+/-- Exactly once, under at most one fault (action lists without discard: move on one device or
+across devices, flag, flags, label, add-header, exec, in any order and number): after the run
+the message is bound at the entry its ghost location names, to a file whose visible and durable
+content is a complete version; that entry is the original one, or it was free before and the
+original entry is free now; every other entry of every directory is bound as before.  So there is
+exactly one entry for the message - no loss, no duplicate - whether or not an error is returned. -/
+theorem C01_single_fault_exactly_once (env : PEnv) (ml : MatchList) (st : ExecSt) (w : World) (orig : Bytes) (plan : Plan)
+    (hs : Proofs.StartAt w st orig) (hd : Proofs.NoDiscard ml) (hp : Proofs.World.SingleFault plan) :
+    let r := runPlan plan (matchesExec env ml st) w 0 []
+    ∃ p n fid, r.1.1.ms.loc = some (p, n) ∧ r.2.1.lookup p n = some fid ∧
+      r.2.1.file fid = some ⟨r.1.1.ms.content, r.1.1.ms.content⟩ ∧ r.1.1.ms.content ∈ Proofs.stages st.ms orig ∧
+      ((p, n) = (st.src.path, st.ms.name) ∨ (w.lookup p n = none ∧ r.2.1.lookup st.src.path st.ms.name = none)) ∧
+      ∀ q m, (q, m) ≠ (p, n) → (q, m) ≠ (st.src.path, st.ms.name) → r.2.1.lookup q m = w.lookup q m :=
+  Proofs.exec_single_fault_exactly_once env ml st w orig plan hs hd hp
+
+/-- Counting form: if no OTHER entry of the initial world is bound to a file that holds a version
+of the message, then after the run (at most one fault) the only entry, over all directories, bound
+to a file whose data is a stage of the message is the message's own entry. -/
+theorem C01_single_fault_unique (env : PEnv) (ml : MatchList) (st : ExecSt) (w : World) (orig : Bytes) (plan : Plan)
+    (hs : Proofs.StartAt w st orig) (hd : Proofs.NoDiscard ml) (hp : Proofs.World.SingleFault plan)
+    (hu : ∀ q m fid, w.lookup q m = some fid → (q, m) ≠ (st.src.path, st.ms.name) →
+      fid < w.nextFid ∧ ∀ f, w.file fid = some f → f.data ∉ Proofs.stages st.ms orig) :
+    let r := runPlan plan (matchesExec env ml st) w 0 []
+    ∀ q m fid f, r.2.1.lookup q m = some fid → r.2.1.file fid = some f → f.data ∈ Proofs.stages st.ms orig →
+      r.1.1.ms.loc = some (q, m) :=
+  Proofs.exec_single_fault_unique env ml st w orig plan hs hd hp hu
+
+/-- No stray file, under at most one fault: every entry that exists after the run - in
+particular every name the run created - is the message's entry (complete, by the previous
+theorem) or an entry that existed before, bound to the same file with unchanged content.  No
+empty placeholder and no partial copy remains in any directory. -/
+theorem C01_single_fault_no_stray (env : PEnv) (ml : MatchList) (st : ExecSt) (w : World) (orig : Bytes) (plan : Plan)
+    (hs : Proofs.StartAt w st orig) (hd : Proofs.NoDiscard ml) (hp : Proofs.World.SingleFault plan) :
+    let r := runPlan plan (matchesExec env ml st) w 0 []
+    ∀ q m fid, r.2.1.lookup q m = some fid →
+      r.1.1.ms.loc = some (q, m) ∨
+      (w.lookup q m = some fid ∧ (fid < w.nextFid → r.2.1.file fid = w.file fid)) :=
+  Proofs.exec_single_fault_no_stray env ml st w orig plan hs hd hp
+
+/-- A failure is reported - for EVERY fault plan, any number of faults: if any call of the
+execution of an action list fails (injected or genuine) and the call is not an ignored site
+(`ignoredSite`: every `close`, every `closedir`, the `fstatat` of `maildir_move` - the known
+findings) and the errno is not one mdsort recovers from (`handledErr`: `EEXIST` of the exclusive
+create is retried under the next name, `EXDEV` of the rename falls back to copying), then
+`matches_exec` returns an error. -/
+theorem C01_fault_reported (env : PEnv) (ml : MatchList) (st : ExecSt) (w : World) (plan : Plan) (c : Call) (e : String)
+    (hmem : (c, Res.err e) ∈ (runPlan plan (matchesExec env ml st) w 0 []).2.1.trace.drop w.trace.length)
+    (hsite : Proofs.World.ignoredSite c = false) (herr : Proofs.World.handledErr c e = false) :
+    (runPlan plan (matchesExec env ml st) w 0 []).1.2 = true :=
+  Proofs.exec_failure_reported' env ml st w plan c e hmem hsite herr
+
+/-- The same in the terms of the plan: the failure injected at call number `i` of
+`matches_exec` is reported. -/
+theorem C01_fault_reported_at (env : PEnv) (ml : MatchList) (st : ExecSt) (w : World) (plan : Plan)
+    (i : Nat) (c : Call) (r : Res) (e : String)
+    (hget : ((runPlan plan (matchesExec env ml st) w 0 []).2.1.trace.drop w.trace.length)[i]? = some (c, r))
+    (hp : plan i = some (.fail e))
+    (hsite : Proofs.World.ignoredSite c = false) (herr : Proofs.World.handledErr c e = false) :
+    (runPlan plan (matchesExec env ml st) w 0 []).1.2 = true :=
+  Proofs.exec_fault_reported' env ml st w plan i c r e hget hp hsite herr
+
+/-- Exit 0 means final place, under at most one fault: if `matches_exec` returns no error the
+message is bound in the directory of the last move/flag/flags action (`finalDir`; the source
+directory if there is none) to a file that holds the rewritten message if the list contains a
+label or add-header (and in any case the original or the rewritten bytes), and the original
+entry is free unless it is the final one. -/
+theorem C01_exit0_final (env : PEnv) (ml : MatchList) (st : ExecSt) (w : World) (orig : Bytes) (plan : Plan)
+    (hs : Proofs.StartAt w st orig) (hd : Proofs.NoDiscard ml) (hp : Proofs.World.SingleFault plan)
+    (he : (runPlan plan (matchesExec env ml st) w 0 []).1.2 = false) :
+    let r := runPlan plan (matchesExec env ml st) w 0 []
+    ∃ n fid, r.1.1.ms.loc = some (Proofs.World.finalDir ml st.src.path, n) ∧
+      r.2.1.lookup (Proofs.World.finalDir ml st.src.path) n = some fid ∧
+      r.2.1.file fid = some ⟨r.1.1.ms.content, r.1.1.ms.content⟩ ∧
+      (Proofs.World.rewrites ml = true → r.1.1.ms.content = (messageWrite st.ms.msg).1) ∧
+      (r.1.1.ms.content = orig ∨ r.1.1.ms.content = (messageWrite st.ms.msg).1) ∧
+      ((Proofs.World.finalDir ml st.src.path, n) ≠ (st.src.path, st.ms.name) →
+        r.2.1.lookup st.src.path st.ms.name = none) :=
+  Proofs.exec_exit0_final env ml st w orig plan hs hd hp he
+
+/-- With discard (a list that ends in a discard; the grammar makes discard exclusive), under at
+most one fault: without error the message's entry is gone and nothing else has changed; with an
+error the message is intact exactly once, as above. -/
+theorem C01_single_fault_discard (env : PEnv) (pre : MatchList) (md : Match) (st : ExecSt) (w : World) (orig : Bytes)
+    (plan : Plan) (hs : Proofs.StartAt w st orig) (hd : Proofs.NoDiscard pre) (hty : md.ty = .discard)
+    (hp : Proofs.World.SingleFault plan) :
+    let r := runPlan plan (matchesExec env (pre ++ [md]) st) w 0 []
+    (r.1.2 = false → r.1.1.ms.loc = none ∧ r.2.1.lookup st.src.path st.ms.name = none ∧
+      (∀ q m, (q, m) ≠ (st.src.path, st.ms.name) → r.2.1.lookup q m = w.lookup q m) ∧
+      ∀ g, g < w.nextFid → r.2.1.file g = w.file g) ∧
+    (r.1.2 = true → ∃ p n fid, r.1.1.ms.loc = some (p, n) ∧ r.2.1.lookup p n = some fid ∧
+      r.2.1.file fid = some ⟨r.1.1.ms.content, r.1.1.ms.content⟩ ∧ r.1.1.ms.content ∈ Proofs.stages st.ms orig ∧
+      ((p, n) = (st.src.path, st.ms.name) ∨ (w.lookup p n = none ∧ r.2.1.lookup st.src.path st.ms.name = none)) ∧
+      ∀ q m, (q, m) ≠ (p, n) → (q, m) ≠ (st.src.path, st.ms.name) → r.2.1.lookup q m = w.lookup q m) :=
+  Proofs.exec_single_fault_discard env pre md st w orig plan hs hd hty hp
+
+/-! Non-vacuity: maildir `/m`, message `new/1.h` = `A: b\n\nx` open at handle 4, source directory
+at handle 3; the list moves it to `/m/cur` and labels it; the plan fails call 7 with `EIO`. -/
+example : Proofs.StartAt Proofs.exWorld Proofs.exSt Proofs.exOrig ∧ Proofs.NoDiscard Proofs.exList ∧
+    Proofs.World.SingleFault (Proofs.World.singlePlan 7 (.fail "EIO")) ∧ Proofs.exDiscard.ty = .discard :=
+  ⟨Proofs.ex_startAt, Proofs.ex_noDiscard, Proofs.World.singleFault_single _ _, rfl⟩
+
+/-- Non-vacuity of `C01_exit0_final`, and witness that the exclusions of `C01_fault_reported` are
+necessary (the known findings F17b-d): in the example, failing the `fstatat` (call 1), the `close`
+of the placeholder (call 4) or a `closedir` (call 18) with `EIO`, the exclusive create (call 2)
+with `EEXIST` or the rename (call 3) with `EXDEV` leaves the error flag clear. -/
+example :
+    [(1, "EIO"), (4, "EIO"), (18, "EIO"), (2, "EEXIST"), (3, "EXDEV")].all (fun (ie : Nat × String) =>
+      let r := runPlan (Proofs.World.singlePlan ie.1 (.fail ie.2)) (matchesExec Proofs.exEnv Proofs.exList Proofs.exSt)
+        Proofs.exWorld 0 []
+      (r.2.1.trace[ie.1]?.map fun x =>
+          (Proofs.World.ignoredSite x.1 || Proofs.World.handledErr x.1 ie.2) && x.2 == .err ie.2) == some true
+        && r.1.2 == false) = true :=
+  Proofs.ex_ignored_sites
+
+/-- `rename` failing with `EIO` is neither ignored nor handled; `close` is ignored; `EXDEV` of `rename` is handled. -/
+example : Proofs.World.ignoredSite (.renameat 3 [49] 5 [50]) = false ∧ Proofs.World.handledErr (.renameat 3 [49] 5 [50]) "EIO" = false ∧
+    Proofs.World.ignoredSite (.close 6) = true ∧ Proofs.World.handledErr (.renameat 3 [49] 5 [50]) "EXDEV" = true := by
+  decide
 
 end Mdsort.Props
